@@ -304,6 +304,65 @@ func vfGenDelays(t *rapid.T, c *vfProdCase) {
 	}
 }
 
+// vfGenRetryStorm is a directed template: a retriable failure puts the hot partition into a retry, fresh messages are parked
+// behind it, the partition is leaderless exactly while the retry buffers are flushed (so the parked messages fail), then the
+// leader comes back and a later message goes through another retry cycle on the same partition.
+func vfGenRetryStorm(t *rapid.T, c *vfProdCase) {
+	hotT, hotP := c.Msgs[0].Topic, c.Msgs[0].Part
+	key := fmt.Sprintf("%s/%d", c.Topics[hotT].Name, hotP)
+	n := len(c.Msgs)
+	for i := range c.Msgs {
+		if rapid.IntRange(0, 3).Draw(t, fmt.Sprintf("storm.hot%d", i)) != 0 {
+			c.Msgs[i].Topic, c.Msgs[i].Part = hotT, hotP
+		}
+	}
+	code := rapid.SampledFrom(vfRetriableCodes).Draw(t, "storm.code")
+	pad := rapid.IntRange(0, 2).Draw(t, "storm.pad")
+	var l []vfFault
+	for i := 0; i < pad; i++ {
+		l = append(l, vfFault{Kind: "ok"})
+	}
+	l = append(l, vfFault{Kind: "err", Code: code, Gate: "g1"})
+	gap := rapid.IntRange(0, 2).Draw(t, "storm.gap")
+	for i := 0; i < gap; i++ {
+		l = append(l, vfFault{Kind: "ok"})
+	}
+	l = append(l, vfFault{Kind: rapid.SampledFrom([]string{"err", "err", "dropBefore", "errApplied"}).Draw(t, "storm.second"), Code: code})
+	c.Faults = map[string][]vfFault{"produce/" + key: l}
+	a := 1 + rapid.IntRange(0, n/3).Draw(t, "storm.a")
+	b := a + rapid.IntRange(0, n/3).Draw(t, "storm.b")
+	if a > n {
+		a = n
+	}
+	if b > n {
+		b = n
+	}
+	// variant "late": the fresh messages are submitted right after the held failure is released, so that they can reach the
+	// partition producer between its switch to the retry level and the return of the end-of-retry marker (parked at level 0)
+	late := rapid.Bool().Draw(t, "storm.late")
+	c.Script = []vfStep{{Op: "send", A: 0, B: a}, {Op: "await", Key: "produce/" + key, A: pad + 1}}
+	if !late {
+		c.Script = append(c.Script, vfStep{Op: "send", A: a, B: b})
+	}
+	if rapid.IntRange(0, 3).Draw(t, "storm.leaderless") != 0 {
+		c.Script = append(c.Script, vfStep{Op: "leaderless", Key: key})
+	}
+	c.Script = append(c.Script, vfStep{Op: "release", Gate: "g1"})
+	if late {
+		c.Script = append(c.Script, vfStep{Op: "send", A: a, B: b})
+	}
+	c.Script = append(c.Script, vfStep{Op: "waitOutcomes", A: b},
+		vfStep{Op: "moveLeader", Key: key, A: int(c.Topics[hotT].Leaders[hotP])}, vfStep{Op: "send", A: b, B: n}, vfStep{Op: "waitOutcomes", A: n})
+	c.Conf.MetaRetryMax = rapid.IntRange(0, 1).Draw(t, "storm.metaRetry")
+	c.Conf.BackoffUs = rapid.SampledFrom([]int{0, 0, 100}).Draw(t, "storm.backoff")
+	// slow the marker's round trip down (it passes the broker producer and the retry handler)
+	c.Delays = map[string][]int{"prod.broker.input": {4, 4, 4, 3, 4, 4, 3, 4}, "prod.retry.enqueue": {3, 4, 3, 3, 4, 3, 3, 3}}
+	c.StormDelays = true
+	if c.Conf.RetryMax == 0 {
+		c.Conf.RetryMax = 1 + rapid.IntRange(0, 2).Draw(t, "storm.retryMax")
+	}
+}
+
 func vfGenProdCase(t *rapid.T, emph string) *vfProdCase {
 	c := &vfProdCase{}
 	c.Conf = vfGenProdConf(t, emph)
@@ -346,7 +405,12 @@ func vfGenProdCase(t *rapid.T, emph string) *vfProdCase {
 		}
 	}
 	vfGenScript(t, c, gates)
-	vfGenDelays(t, c)
+	if (emph == "C01" || emph == "C02" || emph == "C12") && len(c.Msgs) >= 4 && rapid.IntRange(0, 3).Draw(t, "retryStorm") == 0 {
+		vfGenRetryStorm(t, c)
+	}
+	if !c.StormDelays {
+		vfGenDelays(t, c)
+	}
 	if emph == "C17" {
 		// routing only: static leaderless subsets, every partitioner incl. misbehaving custom ones, no faults
 		for ti := range c.Topics {
